@@ -34,7 +34,7 @@ def c11(ctx):
     rule = ("enumerated: every byte string of length 0-3 through encode+decode; every string of length 1-4 over "
             "a 80-symbol alphabet (quick: both base64 alphabets, '=', '.', one representative per foreign byte class) "
             "or over all 255 NUL-free bytes (thorough) through decode; every length 0-4096 plus random lengths to 64KiB with "
-            "seeded content through encode/decode/mutated decode under ASan. Part 4, users of the decoder: every base64url member of every key type (private/public) and every token segment corrupted in 10 ways (foreign byte, length 1 mod 4, space, '.', ',', newline, bytes >= 0x80, NUL + junk) through 4 loaders x 2 providers must be rejected. Non-trivial = input with a tail "
+            "seeded content through encode/decode/mutated decode under ASan. Part 4, users of the decoder: every base64url member of every key type (private/public) and every token segment corrupted in 10 ways (foreign byte, length 1 mod 4, space, '.', ',', newline, bytes >= 0x80, NUL + junk) through 4 loaders x 2 providers must be rejected; RSA / EC number members re-encoded with leading zero octets (or without theirs) import as the same key. Non-trivial = input with a tail "
             "(len%3!=0 or len%4 in {2,3}), a 62/63 sextet, or a foreign/'='/'.' byte; enumerated inputs are distinct by construction.")
     cov, mn = P.generic_harness_check(
         ctx, "C11_codec", rule,
@@ -148,7 +148,7 @@ def c03(ctx):
     rule = ("exhaustive product of checker/builder configurations (no key; key with/without alg attr; explicit alg; callback leaving alg default / "
             "setting key / alg / both) x header alg variants (none/None/NONE/known/unknown/missing/non-string) x signature (absent, garbage, real) "
             "x provider, plus token shapes with 2-5+ segments and third segment in {empty, 1-2 chars, valid HS/ES signature, junk, '='}. "
-            "Also: callback installed in one or two steps (ctx-only setcb); signatures of exactly 256 / 65536 characters; escaped-NUL alg variants; every second builder cell carries an application-set alg header member (the emitted alg is still the resolved one); shapes with '='-padded payload segments and signatures over everything before the LAST dot. Non-trivial = cell with a key, or empty third segment, or an alg-none variant; cells distinct by construction, shapes by token hash.")
+            "Also: callback installed in one or two steps (ctx-only setcb); signatures of exactly 256 / 65536 characters; escaped-NUL alg variants; every second builder cell carries an application-set alg header member (the emitted alg is still the resolved one); shapes with '='-padded payload segments and signatures over everything before the LAST dot; setkey-history cells (an accepted pair, then a refused call, then use: the first pair stays in force). Non-trivial = cell with a key, or empty third segment, or an alg-none variant; cells distinct by construction, shapes by token hash.")
     cov, mn = P.generic_harness_check(ctx, "C02_matrix", rule, MATRIX_ASSUME, extra_link="", extra_args=["--prop", "C03"], exhaustive=True,
                                       min_nontrivial={"quick": 5000, "thorough": 5000})
     return P.finish(ctx, "exploration", cov, MATRIX_ASSUME, mn)
@@ -167,7 +167,7 @@ def c01(ctx):
             "another key / another alg, ECDSA specials (r,s in {0,n}, (r,n-s), re-padded or stripped r||s), EdDSA S+L, RSA zero byte, header alg swap with "
             "kept / empty-key-HMAC / public-PEM-HMAC / real-key signatures, payload change, part swaps, header re-encoding, std alphabet). "
             "Oracle: verify==0 => reference verifier accepts (lenient base64, header alg's algorithm, exact signing input). "
-            "Deterministic parts: (a) keys nobody can sign for - RSA public JWKs with made-up moduli of 2048..65536 bits, items flagged 'Invalid alg type' after loading, HS* tokens keyed with nothing / public PEM / raw public numbers against every asymmetric key - every token must be rejected via setkey and via callback; (b) for every EC key, signatures with short r, short s, both: all nine re-encodings x provider x route; (c) same address, other key: with a recycling allocator (jwt_set_alloc) key A is loaded, used and freed, key B lands at its address and must reject A's tokens, accept its own and sign as B; (d) every asymmetric key's own kind of signature under a header that names an algorithm of another family (ES256-style under EdDSA/RS*/PS*, EdDSA under ES*, ...), key without alg attribute; (e) key history: K0 by setkey, a callback hands out KB for one token and then leaves the configuration alone or is removed - KB's tokens are rejected, K0's accepted. Signature extensions include 255/256/257/512..131072 characters; constant-fill signatures 0x00/0xff/0x80/0x7f. Non-trivial = the case reached signature evaluation (accepted, or rejected by the crypto layer); distinct by hash of (token, provider, key, alg, config).")
+            "Deterministic parts: (a) keys nobody can sign for - RSA public JWKs with made-up moduli of 2048..65536 bits, items flagged 'Invalid alg type' after loading, HS* tokens keyed with nothing / public PEM / raw public numbers against every asymmetric key - every token must be rejected via setkey and via callback; (b) for every EC key, signatures with short r, short s, both: all ten special encodings (the tenth: r = -e/d mod n, s = 1 - the verifier's point at infinity, which OpenSSL reports as an error) x provider x route; (c) same address, other key: with a recycling allocator (jwt_set_alloc) key A is loaded, used and freed, key B lands at its address and must reject A's tokens, accept its own and sign as B; (d) every asymmetric key's own kind of signature under a header that names an algorithm of another family (ES256-style under EdDSA/RS*/PS*, EdDSA under ES*, ...), key without alg attribute; (e) key history: K0 by setkey, a callback hands out KB for one token and then leaves the configuration alone or is removed - KB's tokens are rejected, K0's accepted. Signature extensions include 255/256/257/512..131072 characters; constant-fill signatures 0x00/0xff/0x80/0x7f. Non-trivial = the case reached signature evaluation (accepted, or rejected by the crypto layer); distinct by hash of (token, provider, key, alg, config).")
     assumptions = ["reference verifier in vkeys.h on raw OpenSSL EVP decides validity (PSS: any salt length; ECDSA: fixed-width r||s)",
                    "structural forgeries only; primitives are trusted"]
     cov, mn = P.generic_harness_check(ctx, "C01_forge", rule, assumptions, min_nontrivial={"quick": 5000, "thorough": 50000})
@@ -216,7 +216,7 @@ def c06(ctx):
             "fz_token_struct gets header bytes, payload bytes and signature bytes, base64url-encodes them (optionally std alphabet / padding) and can sign "
             "header.payload with the configured key so that accept paths are reached. Oracle in the target: returns without sanitizer report or leak; "
             "verify==0 => two dots, header decodes to a JSON object with a known string alg, payload decodes to JSON, and (keyed) signature valid under the "
-            "independent verifier. Selector bits: application allocator, checker reused after a rejection, non-empty OpenSSL error queue; configurations with expected iss/sub/aud and positive leeways; seeds with registered claims of every JSON type, time claims at the ends of int64, constant-fill signatures, printf conversions. Non-trivial = input that passed both dot scans and header base64 (counted in the target), distinct by hash of (token, config).")
+            "independent verifier. Selector bits: application allocator, checker reused after a rejection, non-empty OpenSSL error queue; configurations with expected iss/sub/aud and positive leeways; seeds with registered claims of every JSON type, time claims at the ends of int64, constant-fill signatures, printf conversions, alg members of every shape; selector bit 12 installs a callback that reads the token and refuses it (a zero return is then an oracle failure). Non-trivial = input that passed both dot scans and header base64 (counted in the target), distinct by hash of (token, config).")
     assumptions = ["libFuzzer campaigns are only approximately pinned by -seed; saved crash-/leak- artifacts are the reproducible unit",
                    "timeout/oom/slow-unit artifacts are load noise, not violations",
                    "known dependency finding (nettle ignores the last Ed448 signature byte) is excluded by construction inside the target and counted"]
@@ -239,7 +239,7 @@ def c07(ctx):
             "keys non-array, top-level array or scalar. Oracle: no sanitizer report or leak; not JSON (most lenient jansson flags) => set error + message + no new item; "
             "JSON (library flags) => no set error, item count = |keys| or 1, kid/oct bytes of item i come from element i, every item has error+message or known kty + "
             "key material (oct bytes equal decode of k; PEM parses; bits>0) and survives being used by a checker/builder. "
-            "Entries also load_fromfp/load_fromfile onto an existing set and jwks_create_from*; the existing set carries a stale error every second time and was emptied first (free_all / item by item) every second time; every reader of every item is called; application allocator and error-queue bits. Non-trivial = document that parses and contains an element with a known kty (reached a per-type parser); distinct by hash of (document, entry, provider).")
+            "Entries also load_fromfp/load_fromfile onto an existing set and jwks_create_from*; the existing set carries a stale error every second time and was emptied first (free_all / item by item) every second time; every reader of every item is called; application allocator and error-queue bits; one input in seven hands over ZERO bytes of an unterminated heap copy of the document (expected: error, no items). Non-trivial = document that parses and contains an element with a known kty (reached a per-type parser); distinct by hash of (document, entry, provider).")
     assumptions = ["jansson decides what is JSON (most lenient flags for 'not JSON', library flags for 'JSON')",
                    "documents whose keys member is not an array are checked for memory safety and item well-formedness only (statement is silent)",
                    "libFuzzer campaigns are only approximately pinned by -seed; saved artifacts are the reproducible unit"]
@@ -259,7 +259,7 @@ def c04(ctx):
             "long-lived checkers (unsigned alg-none tokens without key; HS256 tokens with key). Each token is generated relative to the policy in force: exp/nbf = "
             "boundary+delta (delta in -2..2), 64-bit extremes, random, or a wrong JSON type (real, exponent, string, bool, null, array, object, beyond int64); iss/sub/aud "
             "absent, equal, prefix, extended, case-changed, empty, other, trailing space, wrong JSON type, or containing an escaped NUL. Oracle: verdict == reference policy "
-            "(both directions), return codes of configuration calls, jwt_checker_claim_get == model after every step. String claims also as expected value + 255/256/257/512/65536/65537 characters. Every second worker runs in a non-UTC time zone. Non-trivial = verify decided within |delta|<=1 of a "
+            "(both directions), return codes of configuration calls, jwt_checker_claim_get == model after every step. String claims also as expected value + 255/256/257/512/65536/65537 characters. Every second worker runs in a non-UTC time zone; every second sequence has an observing callback on both checkers. Non-trivial = verify decided within |delta|<=1 of a "
             "boundary, by a wrong-typed claim, by a confusion string, or after a claim_del; distinct by hash of (payload, clock, leeways, expected claims, checker).")
     assumptions = ["clock in [0,2^41], leeways in negatives or [0,2^40] (no time_t overflow provoked)", "strings are valid UTF-8 without embedded NUL",
                    "the model follows the code for the leeway sign (exp > now - leeway, nbf <= now + leeway), as the statement does",
@@ -269,8 +269,19 @@ def c04(ctx):
 
 
 # ---------------------------------------------------------------- C15
-harness_job("C15_map")
-std_replayer("C15", "C15_map")
+def c15_link():
+    # the C15 harness links a small C file that uses the real jwt.h value macros (they are C only)
+    return "-lrapidcheck " + ck.harness_obj("cmacros", os.path.join(VERIF, "vlib", "cmacros.c"), "asan", "", ck.build_lib("asan"))
+
+
+BUILD_JOBS.append(lambda: ck.build_harness("C15_map", "asan", extra_link=c15_link()))
+
+
+def c15_replayer(ctx, path):
+    return P.harness_replay_fn(ck.build_harness("C15_map", "asan", extra_link=c15_link()), "C15")(path)
+
+
+REPLAYERS["C15"] = c15_replayer
 
 
 @P.check("C15")
@@ -280,11 +291,11 @@ def c15(ctx):
             "NULL string, malformed/scalar/duplicate-key JSON, whole-object merge with and without replace, typed gets, delete one/all) on six targets (builder headers, builder "
             "claims, the jwt_t of a generate callback and of a verify callback, headers and claims each); plus rapidcheck sequences of length 1-40 over the full op product "
             "(7 names x value tables at type boundaries). Oracle: std::map model of the statement: return code, value.error, returned value, and whole-object snapshot "
-            "json_equal to the model after every operation. JSON pool with members of every JSON type, 17-digit reals, DBL_MAX, 2^53+1; a name that differs from another only beyond 256 characters; dirty jwt_value_t; builder sequences contain generate() operations (maps unchanged). Non-trivial = sequence with a collision, a merge over existing members, or delete-all followed by a set; "
+            "json_equal to the model after every operation. JSON pool with members of every JSON type, 17-digit reals, DBL_MAX, 2^53+1; a name that differs from another only beyond 256 characters; dirty jwt_value_t; builder sequences contain generate() operations (maps unchanged); the real jwt.h macros (vlib/cmacros.c, C) in read-then-write idioms through one jwt_value_t. Non-trivial = sequence with a collision, a merge over existing members, or delete-all followed by a set; "
             "distinct by hash of (target, operation list).")
     assumptions = ["names and strings are valid UTF-8 without embedded NUL", "GET JSON of a scalar member may return TYPE or INVALID",
                    "only object payloads are used for the verify-callback target"]
-    cov, mn = P.generic_harness_check(ctx, "C15_map", rule, assumptions, exhaustive=True, min_nontrivial={"quick": 20000, "thorough": 200000})
+    cov, mn = P.generic_harness_check(ctx, "C15_map", rule, assumptions, extra_link=c15_link(), exhaustive=True, min_nontrivial={"quick": 20000, "thorough": 200000})
     return P.finish(ctx, "exploration", cov, assumptions, mn)
 
 
@@ -302,7 +313,7 @@ def c16(ctx):
             "find_bykid existing/prefix/absent/extended/duplicate; free_bad; free_all; error_clear), plus rapidcheck sequences of length 1-60. Every loaded key carries a "
             "unique tag (oct key bytes / kid). Oracle: vector model - every return value, and after every operation count, identity and error flag of each item_get(i), "
             "NULL at and beyond count, jwks_error and jwks_error_any; ASan on every step; __lsan_do_recoverable_leak_check() after freeing the set of every sequence. "
-            "17 operations (adds loads of keys that fail half-way: EC x/y/d, RSA e/p, OKP x). Every sequence is run twice: state inspected after every step, and inspected at the end only (get(count) first, scan from the back); out-of-range indices 256, 65536, 2^31, 2^32(+1), 2^63(+1), SIZE_MAX(-1) for get and free; kid lookups with 256/65536 extra characters; odd workers under GnuTLS; every fourth worker with a recycling allocator, every fourth with a ledger allocator; loads include good EC / OKP / RSA private keys. Non-trivial = a removal followed by a load or indexed access, or a find among duplicate kids; distinct by hash of the operation list.")
+            "17 operations (adds loads of keys that fail half-way: EC x/y/d, RSA e/p, OKP x). Every sequence is run twice: state inspected after every step, and inspected at the end only (get(count) first, scan from the back); out-of-range indices 256, 65536, 2^31, 2^32(+1), 2^63(+1), SIZE_MAX(-1) for get and free; kid lookups with 256/65536 extra characters; odd workers under GnuTLS; every fourth worker with a recycling allocator, every fourth with a ledger allocator; loads include good EC / OKP / RSA private keys, also flagged ones (non-string alg). Non-trivial = a removal followed by a load or indexed access, or a find among duplicate kids; distinct by hash of the operation list.")
     assumptions = ["find_bykid is never called with NULL (undocumented)", "LSan attributes a leak to the sequence after which it is first seen"]
     cov, mn = P.generic_harness_check(ctx, "C16_keyring", rule, assumptions, exhaustive=True, env_extra=LEAK_ENV,
                                       min_nontrivial={"quick": 5000, "thorough": 100000})
@@ -323,7 +334,7 @@ def c10(ctx):
             "statement: each output is h.p.s, each part strict unpadded base64url, h and p JSON objects json_equal to the model (alg forced, typ default on signed tokens only, "
             "iat/nbf/exp = clock+offset overriding builder claims, callback edits in that token only), s empty iff alg none else valid under the configured key by an "
             "independent verifier; generate fails exactly where the statement says (public key, failing callback, pair outside the table, unusable key); builder state "
-            "unchanged by generating; return codes of configuration calls. enable_iat arguments 0 and 1, 2, -1, 255, 256, 7, 65536, INT_MIN; second value table with 17-digit reals, DBL_MAX, 5e-324, 2^53+1, deep nesting. Non-trivial = sequence with >=2 generates and an overriding claim, a user alg/typ header, a mutating "
+            "unchanged by generating; return codes of configuration calls. enable_iat arguments 0 and 1, 2, -1, 255, 256, 7, 65536, INT_MIN; second value table with 17-digit reals, DBL_MAX, 5e-324, 2^53+1, deep nesting; callbacks registered without a context; a callback that takes key and algorithm away. Non-trivial = sequence with >=2 generates and an overriding claim, a user alg/typ header, a mutating "
             "callback or an offset change between generates; distinct by hash of the operation list.")
     assumptions = ["controlled clock via link-time wrap of time()", "reference verifier on raw OpenSSL EVP", "values are valid UTF-8; names non-empty (C15 covers the rest)"]
     cov, mn = P.generic_harness_check(ctx, "C10_builder", rule, assumptions, min_nontrivial={"quick": 3000, "thorough": 50000})
@@ -343,7 +354,7 @@ def c13(ctx):
             "none with signature, NULL, empty) or one long-lived builder (the C10 operation alphabet incl. failing callbacks, public/weak/mismatched keys). After every "
             "verify/generate a fresh object is built, every configuration call made so far is replayed on it, and the same call is made at the same clock: return value and "
             "error flag must agree; tokens byte-equal for deterministic algorithms, header.payload equal otherwise. Message text is compared and histogrammed, not asserted. "
-            "Checker callbacks also leave the config in refused states (alg without key, alg != key alg, key without alg) and may hand out another key of the same kind and algorithm the next time. Every case starts with a non-empty OpenSSL error queue and errno set. Non-trivial = sequence containing a call whose predecessor on the same object ended in the other verdict class without error_clear in between; distinct by hash of the operation list.")
+            "Checker callbacks also leave the config in refused states (alg without key, alg != key alg, key without alg) and may hand out another key of the same kind and algorithm the next time; callbacks may be registered without a context; a builder callback may take key and algorithm away. Every case starts with a non-empty OpenSSL error queue and errno set. Non-trivial = sequence containing a call whose predecessor on the same object ended in the other verdict class without error_clear in between; distinct by hash of the operation list.")
     assumptions = ["the harness callback's own counter is copied to the fresh object (it is not library state)", "provider is not switched inside a sequence"]
     cov, mn = P.generic_harness_check(ctx, "C13_history", rule, assumptions, min_nontrivial={"quick": 2000, "thorough": 20000})
     return P.finish(ctx, "exploration", cov, assumptions, mn)
@@ -383,7 +394,7 @@ def c14(ctx):
             "states x provider; every single-member defect (absent / null / number / bool / array / object / empty / non-base64 / too short) of every member of RSA, EC, OKP, oct "
             "JWKs (public and private), bare and inside a set; non-JSON documents; then rapidcheck histories over the C13 checker alphabet and the C10 builder alphabet. "
             "Oracle: verify != 0 <=> error flag, failure has a message, success leaves flag clear and message empty; generate NULL <=> flag set with message; bad keyring items "
-            "and errored sets carry a message; setters return value.error. Part E: out-of-domain set/get/del inputs compare the returned code with value.error. 23 checker configurations incl. callbacks that return 0 with a refused config and keys that are items flagged with a load error. Non-trivial = failing call; distinct by (cause class, configuration, object state) / hash of history.")
+            "and errored sets carry a message; setters return value.error. Part E: out-of-domain set/get/del inputs compare the returned code with value.error. 23 checker configurations incl. callbacks that return 0 with a refused config and keys that are items flagged with a load error. Part A2: the clock moves (every time() reading advances it by 1/2/5 s) while tokens that expire or become valid within +-8 s are verified. Non-trivial = failing call; distinct by (cause class, configuration, object state) / hash of history.")
     assumptions = ["strings are valid UTF-8; errored jwk items are not passed to setkey"]
     cov, mn = P.generic_harness_check(ctx, "C14_errors", rule, assumptions, min_nontrivial={"quick": 5000, "thorough": 50000})
     cov["cause_classes"] = sorted(k[6:] for k in cov["classes"] if k.startswith("cause:"))
@@ -405,7 +416,7 @@ def c05(ctx):
             "8 KiB, names colliding with alg/typ/iat/nbf/exp) set through whole-object JSON or typed setters x iat/nbf/exp options x clock. Oracle: generate != NULL; the "
             "independent verifier accepts (fixed-width r||s, PSS); segments are canonical unpadded base64url; a checker with the public (or same symmetric) key returns 0 under the "
             "verifying provider; header and claims read in its callback are json_equal to builder content + {alg, typ default, iat, nbf, exp}. A volume phase signs hundreds of "
-            "ES256/ES384/ES512 tokens per provider to hit short r or s. Modes: typed / whole-object sets; checker reused after failures; key supplied by callback instead of setkey (builder and checker); the reading callback first probes present and absent members with every typed getter; builder and checker first keyed with another key + explicit algorithm, then re-keyed (setkey over setkey). All jwt_value_t are dirty (0xA5) before the macro-equivalent assignments. Non-trivial = ECDSA signature with a leading zero byte in r or s, tree depth >=3 / non-ASCII / |int|>2^53, "
+            "ES256/ES384/ES512 tokens per provider to hit short r or s. Modes: typed / whole-object sets; checker reused after failures; key supplied by callback instead of setkey (builder and checker); the reading callback first probes present and absent members with every typed getter; builder and checker first keyed with another key + explicit algorithm, then re-keyed (setkey over setkey); builders that have already produced a token with other time settings. All jwt_value_t are dirty (0xA5) before the macro-equivalent assignments. Non-trivial = ECDSA signature with a leading zero byte in r or s, tree depth >=3 / non-ASCII / |int|>2^53, "
             "or a cross-provider pair; distinct by hash of the token.")
     assumptions = ["ES256K / secp256k1 only openssl->openssl (GnuTLS lacks it)", "user-supplied exp/nbf claims are not generated (the default checker would enforce them)",
                    "randomized signatures: the replay re-signs up to 20 times"]
@@ -427,7 +438,7 @@ def c08(ctx):
             "foreign members (members of other key types, unknown names with any JSON value) x bare or inside a set. Oracle: item error-free; kty, key_bits, curve, is_private, alg, "
             "kid, use, key_ops equal an independent mapping of what the JWK states; oct bytes == strict decode of k; the item's PEM parsed by OpenSSL has the same "
             "n,e,d,p,q,dp,dq,qi / x,y,d,curve / raw public+private as the original key (and EVP_PKEY_eq when types match); the same JWK without the foreign members imports "
-            "identically. Fixtures with one-octet integers (e = 3, 17; d = 5) and e = 257; in a set the key comes after a good and an off-curve EC key; imports start with a non-empty OpenSSL error queue. Non-trivial = zero-padded or stripped encodings, foreign members present, or private form; distinct by hash of the JWK text.")
+            "identically. Fixtures with one-octet integers (e = 3, 17; d = 5) and e = 257; in a set the key comes after a good and an off-curve EC key; imports start with a non-empty OpenSSL error queue; kids with percent signs. Non-trivial = zero-padded or stripped encodings, foreign members present, or private form; distinct by hash of the JWK text.")
     assumptions = ["own JWK renderer in vkeys.h; OpenSSL parses the PEM and extracts components", "foreign members never name a member that the key's own type uses"]
     cov, mn = P.generic_harness_check(ctx, "C08_import", rule, assumptions, min_nontrivial={"quick": 3000, "thorough": 50000})
     return P.finish(ctx, "exploration", cov, assumptions, mn)
@@ -445,7 +456,7 @@ def c09(ctx):
             "1024/2047/2048) x RS*/PS*; EC curves P-256, P-384, P-521, secp256k1, secp224r1, brainpoolP256r1, brainpoolP384r1 x ES256/ES256K/ES384/ES512; Ed25519, Ed448 x EdDSA; "
             "cross-family probes; each for jwt_builder_generate and for jwt_checker_verify of a token the reference signer signed validly with that very key; both providers. "
             "Oracle: below the floor => NULL / non-zero with error flag and message; at or above => generate succeeds, the token verifies and the reference verifier accepts "
-            "(GnuTLS: asserted for the curves it supports). Every cell also with the key naming the algorithm itself (pinned by key+setkey / key alone) and with an item flagged after loading (alg: 256); oct keys of the sizes asymmetric tests look for. The importer refusing an adequate key (with stale entries in OpenSSL's error queue) is a violation, not a skipped cell. Warm cells: the object has just succeeded with the key under another algorithm of the family (cell's algorithm by setkey or by callback). Non-trivial = cell within one step of a threshold (31/32/33, 47/48/49, 63/64/65 bytes; 2040-2056 bits; every EC/OKP cell); "
+            "(GnuTLS: asserted for the curves it supports). Every cell also with the key naming the algorithm itself (pinned by key+setkey / key alone) and with an item flagged after loading (alg: 256); oct keys of the sizes asymmetric tests look for. The importer refusing an adequate key (with stale entries in OpenSSL's error queue) is a violation, not a skipped cell. Warm cells: the object has just succeeded with the key under another algorithm of the family (cell's algorithm by setkey or by callback); cells on an object that has just been refused with a weak key (error not cleared). Non-trivial = cell within one step of a threshold (31/32/33, 47/48/49, 63/64/65 bytes; 2040-2056 bits; every EC/OKP cell); "
             "cells are distinct by construction.")
     assumptions = ["the statement constrains EC size only: brainpoolP256r1 may sign ES256 under OpenSSL", "a key the importer refuses counts as refused"]
     cov, mn = P.generic_harness_check(ctx, "C09_floor", rule, assumptions, extra_link="", exhaustive=True, min_nontrivial={"quick": 200, "thorough": 200})
@@ -529,7 +540,7 @@ def c18(ctx):
             "with seeded start skew and inter-call spin, under the fixed fake clock; one provider per process (even workers OpenSSL, odd workers GnuTLS), never switched. The same "
             "workload runs under ThreadSanitizer and under ASan/UBSan. Oracle: no ThreadSanitizer report whose stack contains a libjwt frame (reports without one are counted "
             "separately), and every thread's transcript (verdicts and error flags; tokens for HS*/RS*/EdDSA; header.payload + reference-verifier validity for ECDSA/PSS) equals the "
-            "transcript of the same script run sequentially beforehand. Round 0 of every worker is cold (first library calls of the process are concurrent); every second round all threads hammer one key; half of the calls look keys up by kid in the shared keyring; ES256K key also under GnuTLS (calls fail identically). Small-stack part: 3 threads with 64 KiB stacks verify and generate tokens with segments of 4k..64k(+-) characters (thorough: up to 1M) for every key; results equal the main thread's. Non-trivial = round in which calls of two threads overlapped on the same key (harness-owned atomic "
+            "transcript of the same script run sequentially beforehand. Round 0 of every worker is cold (first library calls of the process are concurrent); every second round all threads hammer one key; half of the calls look keys up by kid in the shared keyring; ES256K key also under GnuTLS (calls fail identically). Small-stack part: 3 threads with 64 KiB stacks verify and generate tokens with segments of 4k..64k(+-) characters (thorough: up to 1M) for every key; results equal the main thread's. Builders and checkers of half of the threads (all, every third round) have a callback installed. Non-trivial = round in which calls of two threads overlapped on the same key (harness-owned atomic "
             "counters, not used in any verdict); distinct by (seed, worker, round, provider).")
     assumptions = ["TSan's happens-before detection reports a race whenever both accesses occur in a run; races only reachable through paths the scripts do not take are missed",
                    "uninstrumented OpenSSL/GnuTLS/jansson internals are invisible to TSan", "schedules are sampled, not enumerated",
